@@ -157,6 +157,11 @@ func main() {
 	nOK, nFail, nUns := 0, 0, 0
 	sort.Slice(results, func(i, j int) bool { return results[i].Name < results[j].Name })
 	for _, r := range results {
+		if os.Getenv("GVC_HAVOC") != "" {
+			for _, h := range r.Havocked {
+				fmt.Printf("HAVOC %s: %s\n", r.Name, h)
+			}
+		}
 		if r.Unsupported != "" {
 			nUns++
 			fmt.Printf("UNSUPPORTED %s: %s\n", r.Name, r.Unsupported)
